@@ -8,17 +8,18 @@ import (
 
 // owner is what an engine key decodes to.
 type owner struct {
-	Kind   string // counter | tableindex | kv | meta | elem | zscore | json | exptime | expmeta | unknown
-	Type   string // logical type kv|hash|list|set|zset|bitmap|json ("" for counter/tableindex/unknown)
-	Table  string
-	Key    string
-	Sub    string
-	HasSub bool
-	Ver    int64
-	HasVer bool
-	Codec  string // decoder used
-	Err    string // decode error
-	Panic  bool   // the decoder panicked
+	Kind    string // counter | tableindex | kv | meta | elem | zscore | json | exptime | expmeta | unknown
+	Type    string // logical type kv|hash|list|set|zset|bitmap|json ("" for counter/tableindex/unknown)
+	Table   string
+	Key     string
+	Sub     string
+	KeyPart string // the key bytes embedded in an element key (versioned form under wait_compact)
+	HasSub  bool
+	Ver     int64
+	HasVer  bool
+	Codec   string // decoder used
+	Err     string // decode error
+	Panic   bool   // the decoder panicked
 }
 
 func (o owner) String() string {
@@ -77,6 +78,7 @@ func classifyRaw(k []byte, compact bool) (o owner) {
 		o.Table, o.Key = string(t), string(rk)
 	}
 	verKey := func(o *owner, keypart []byte) {
+		o.KeyPart = string(keypart)
 		if !compact {
 			o.Key = string(keypart)
 			return
